@@ -1,8 +1,12 @@
 #!/usr/bin/env python3
-"""Regenerate MANIFEST.json from tools/manifest_data.json (claimed checks + not_applicable)."""
+"""Regenerate MANIFEST.json from tools/manifest/<ID>.json (one file per claimed property) and
+tools/manifest/not_applicable.json (optional reasons for unclaimed ones)."""
 import json, pathlib
 V = pathlib.Path(__file__).resolve().parent.parent
-data = json.load(open(V / "tools" / "manifest_data.json"))
+D = V / "tools" / "manifest"
+data = {"claimed": {f.stem: json.load(open(f)) for f in sorted(D.glob("C*.json"))},
+        "not_applicable": json.load(open(D / "not_applicable.json")) if (D / "not_applicable.json").exists() else {},
+        "notes": "Fix commits in /repo (unguarded, 'fix:') are listed in known_findings.json as 'fixed' entries. No guarded hooks were needed."}
 props = [json.loads(l) for l in open(V / "properties.jsonl")]
 checks, na = [], []
 for p in props:
